@@ -74,7 +74,8 @@ HdrOf == [root |-> Root, tagged |-> B(~conf.tgtByDigest), faultfree |-> B(faults
           force |-> B(conf.force), referrers |-> B(conf.referrers), dtags |-> B(conf.dtags),
           inclext |-> B(conf.inclext), fast |-> B(conf.fast),
           mountok |-> B(conf.mount /\ conf.pair = "samereg"), samerepo |-> B(SameRepo),
-          transient |-> B(faults > 0 /\ faults = retries /\ ~ctxC /\ ~crashed), reftgt |-> B(conf.refTgt)]
+          transient |-> B(faults > 0 /\ faults = retries /\ ~ctxC /\ ~crashed), reftgt |-> B(conf.refTgt),
+          refapi_tgt |-> B(RefApiTgt)]
 PSel(k) == B((k[2] \in {"entry", "bentry", "uentry"} /\ conf.plats) => k[3] = "linux/amd64")
 PEdges == UNION {{[p |-> m, c |-> KidsSeq(m)[j][1], role |-> KidsSeq(m)[j][2], psel |-> PSel(KidsSeq(m)[j]), hosted |-> 1] :
                   j \in 1..Len(KidsSeq(m))} : m \in Mans}
@@ -100,6 +101,11 @@ FaultFree == faults = 0 /\ ~ctxC /\ ~crashed
 InvC04 == ~lateWrite /\ P!First(P!StoreChecks(PCur, written, FALSE)) = ""
 \* the client-made referrers index lists only manifests that are there
 InvFb == \A p \in fbl : p[2] \in tm
+\* ... and after a successful copy with referrers to a target without referrers API every referrer this copy
+\* wrote is in the list behind its subject's fall-back tag (no lost update of the read-modify-write)
+InvFbListed == (ret = "ok" /\ FaultFree /\ conf.referrers /\ ~RefApiTgt) =>
+                 \A i \in Ids : (tasks[i].k = "man" /\ Q(tasks[i]) \in written /\ HasSubject(tasks[i].node))
+                                  => <<tasks[i].rp \o SubjectOf(tasks[i].node), Q(tasks[i])>> \in fbl
 \* C03 when the copy returned ok without faults
 InvC03 == (ret = "ok" /\ FaultFree) => P!Complete(PCur, PInit0, TRUE)
 \* C14 when the copy returned ok without faults
